@@ -2,6 +2,9 @@
 SPEC = {
     "bins": [
         {"name": "c01", "pkg": "./zz_verif/c01", "run": ".", "shards": {"quick": 1, "thorough": 16}},
+        # the same relations on the other arithmetic back-ends (the generated cases are cheap; the sweep stays on the default one)
+        {"name": "c01alt", "pkg": "./zz_verif/c01", "run": "^TestC01$",
+         "configs": [c for c in CPU_OFF if c["name"] != "default"], "quick_configs": ["purego", "alloff"], "shards": {"quick": 1, "thorough": 2}},
     ],
     "rule": "case = (scheme, key seed, encapsulation seed, alteration) drawn by rapid from edge-biased seeds over all 21 KEM schemes "
             "(kem/schemes.All() + the two HPKE-only hybrids); thorough adds every single-bit flip of one honest ciphertext per scheme. "
